@@ -618,6 +618,23 @@ fn main() {
             }
         }
         "miri" => {
+            if usize::BITS < 64 {
+                // a 32-BIT build (stage miri32): one branch leads by 2^16 frames and more - the
+                // counterpart of the 2^32-frame leads of the 64-bit stages; every step is checked
+                // like any other (value, source pulls, pending_frames of both branches)
+                rep.oblige("lead_of_2_pow_16_frames_and_more_in_a_32_bit_build", 1);
+                let deep = [(65_540usize, 65_536usize, true), (66_000, 65_537, false), (131_080, 131_072, true)];
+                for (i, &(cap, lead, a_first)) in deep.iter().enumerate() {
+                    if (i as u64 + 1) % cli.nshards != cli.shard || (i == 2 && !cli.thorough()) {
+                        continue;
+                    }
+                    let mut s = vec![a_first; lead];
+                    s.extend([!a_first, !a_first, !a_first, a_first, a_first, !a_first, !a_first]);
+                    if run_schedule_len(&mut rep, cap, &s, if i % 2 == 0 { Mode::ByRef } else { Mode::ByRc }, false, None) {
+                        rep.hit("lead_of_2_pow_16_frames_and_more_in_a_32_bit_build");
+                    }
+                }
+            }
             // cap <= 2, length <= 10, dealt to shards
             let mut item = 0u64;
             for cap in 1..=2usize {
